@@ -136,6 +136,17 @@ theorem C05_nonstring_keys_dropped (d : Def) (kwargs : List (Key × Value)) (bod
   unfold buildContext
   rw [strEntries_filter]
 
+/-- **At the call site the right-most attribute wins.**  Whatever mixture of `name="…"`,
+`name={…}`, shorthand and `{...spread}` attributes a call is written with, the value the
+component is supplied with under a name is the one given by the right-most attribute that
+mentions the name (an explicit attribute after a spread overrides it, a spread after an explicit
+attribute overrides that). -/
+theorem C05_call_rightmost_wins (attrs : List Attr) (k : String) :
+    supplied (kwargsOf attrs) k = rightmost attrs k := by
+  unfold kwargsOf rightmost
+  rw [supplied_foldl]
+  simp [supplied, strEntries, lookupStr]
+
 /-! ## Priority -/
 
 /-- **The table holds, for each component name, the definition of minimal prefix priority.**
@@ -310,6 +321,21 @@ theorem C05_isolation (env : Env) (ae : Bool) (params : List String) (defn : Pro
     right
     exact ⟨st₃.out, by simp [run, compCall, p₁, hd], by simp [run, compCall, p₂, hd]⟩
 
+open Tera.SafeFlow in
+/-- **The result is inserted without being escaped again.**  `{{ <c …/> }}`: what reaches the
+caller's sink is, byte for byte and tag for tag, the output of the component's own run — in
+every escaping mode and for every escape function. -/
+theorem C05_result_not_reescaped (env : Env) (ae : Bool) (params : List String) (defn : Prog)
+    (vals : List TVal) (hlen : vals.length = params.length) (st : St) (s : List TVal)
+    (h : st.stack = vals.reverse ++ s) (st₃ : St)
+    (hd : run env ae defn { vars := params.zip vals ++ bodyCtx Option.none } = .ok st₃) :
+    run env ae (.comp false .done .done params defn (.op .write .done)) st
+      = .ok (emit { st with stack := s } st₃.out) := by
+  have p : popN params.length st.stack = some (vals, s) := by
+    rw [h, ← hlen, ← List.length_reverse]
+    simpa using popN_append vals.reverse s
+  simp [run, compCall, p, hd, step, sinkBytes, isSafe, fmtT]
+
 /-! ## The hypotheses are satisfiable, and spot checks -/
 
 /-- `c(a: integer = 1, b, ...rest)` called with `b="x", z=true`: a ↦ 1, b ↦ "x", rest ↦ {z: true};
@@ -325,6 +351,12 @@ example : buildContext { params := [⟨"a", none, some (.i64 1)⟩], rest := non
 
 /-- an int-keyed entry (through a spread) is neither bound nor unknown -/
 example : buildContext { params := [], rest := none } [(.i64 3, .bool true)] none = .ok [] := by rfl
+
+/-- `<c {...{a: 1}} a={2} {...{a: 3}}/>` supplies a = 3; without the trailing spread, a = 2 -/
+example : supplied (kwargsOf [.spread [(.str ['a'], .i64 1)], .kv "a" (.i64 2), .spread [(.str ['a'], .i64 3)]]) "a"
+    = some (.i64 3) := by rw [C05_call_rightmost_wins]; rfl
+example : supplied (kwargsOf [.spread [(.str ['a'], .i64 1)], .kv "a" (.i64 2)]) "a" = some (.i64 2) := by
+  rw [C05_call_rightmost_wins]; rfl
 
 /-- lowest number wins whatever the order; equal numbers are rejected -/
 example : buildTable (fun t => if t == "y.html" then 0 else 1) [] [("Btn", "themes/x.html"), ("Btn", "y.html")]
